@@ -1,5 +1,7 @@
 """C04 — RemoteIndices equals the pairwise intersection of the published index sets."""
 
+from translators import tr_c04
+
 PID = "C04"
 CLAIM = True
 MANIFEST_TEXT = ("Lean 4 theorems about a message-level model of RemoteIndices::rebuild (merge-join unpackIndices with rewind and "
@@ -24,7 +26,7 @@ MANIFEST_NOTE = ("Trusted: Lean kernel (+propext/Classical.choice/Quot.sound), t
                  "from the self entry; the oracle accepts both readings, the model and self_entry_cases state the code's.  "
                  "Describes the tree with fixes/C04_localdest_index.patch and fixes/C04_oneset_receives_twoset.patch applied.")
 TECHNIQUE = "Lean 4 proof over a message-level protocol model + differential correspondence under MPI with PMPI schedule steering and a set-theoretic oracle"
-TRANSLATORS = []
+TRANSLATORS = [tr_c04.translate]
 HARNESS = dict(
     sources=["mpi_c04.cc", "pmpi_sched.cc"],
     mpi=True,
